@@ -63,9 +63,8 @@ pub mod ob_misc;
 pub mod ob_props;
 pub mod ob_regs;
 pub mod ob_text;
-pub mod gen_text;
 
 /// All replayable obligations, by harness name.
 pub fn replay_tables() -> Vec<&'static [(&'static str, fn(&mut src::ReplaySrc))]> {
-    vec![ob_fold::TABLE, ob_imm::TABLE, ob_lexpos::TABLE, ob_props::TABLE, ob_regs::TABLE, gen_text::TABLE, ob_gen::TABLE, gen_rules::TABLE, ob_misc::TABLE]
+    vec![ob_fold::TABLE, ob_imm::TABLE, ob_lexpos::TABLE, ob_props::TABLE, ob_regs::TABLE, ob_gen::TABLE, gen_rules::TABLE, ob_misc::TABLE]
 }
